@@ -1,4 +1,6 @@
 """C14 -- KNN / unsupervised prediction follows the exhaustive k-nearest max-min rule."""
+import math
+
 from hypothesis import strategies as st
 
 from ..common import knncase, models
@@ -26,7 +28,9 @@ def strategy(tier):
     sym = knncase.knn_case(nmax=n, nq=(1, 8), kmax_force=True)
     # "all metrics": also the asymmetric divergences (the query is the first argument of the metric in predict)
     asym = knncase.knn_case(nmax=n, nq=(1, 8), kmax_force=True, modes=("feat",), metrics=["neyman", "pearson", "kullback_leibler", "k_divergence"])
-    return st.one_of(sym, sym, sym, sym, asym)
+    # ... and the signed ones on non-normalised positive data (KL, K-divergence, statistic, bhattacharyya return negative values there)
+    signed = knncase.knn_case(nmax=n, nq=(1, 8), kmax_force=True, modes=("feat",), metrics=["kullback_leibler", "k_divergence", "statistic", "bhattacharyya"], point_kinds=["positive"])
+    return st.one_of(sym, asym, signed)
 
 
 def check_predictions(r, case, preds, clusters, tag):
@@ -43,6 +47,8 @@ def check_predictions(r, case, preds, clusters, tag):
     for q in range(case["nq"]):
         got = (preds[q], clusters[q]) if case["model"] == "unsup" else preds[q]
         adm, info = knncase.admissible_outputs(r.DQ[q], costs, outs, k, s["sg_constant"], s["sg_min_density"], s["sg_max_density"])
+        if adm is None or not all(map(math.isfinite, (s["sg_min_density"], s["sg_max_density"]))):
+            continue  # non-finite density (kernel overflow on strongly negative values of a signed "metric"): not decided
         require(got in adm, "predict:k_nearest_max_min", lambda: "query %d (%s): returned %r, admissible %r; k=%d d=%r costs=%r outputs=%r constant=%r range=(%r,%r) query densities %r" % (
             q, tag, got, sorted(adm, key=str), k, r.DQ[q], costs, outs, s["sg_constant"], s["sg_min_density"], s["sg_max_density"], info["densities"]))
         kn = info["k_nearest"]
@@ -53,7 +59,7 @@ def check_predictions(r, case, preds, clusters, tag):
 
 def check_case(case):
     np = models.np()
-    r = knncase.run(case, predict=True, need_symmetric=False)
+    r = knncase.run(case, predict=True, need_symmetric=False, allow_negative=True)
     if isinstance(r, str):
         return Outcome.discard(r)
     nt, nq = case["nt"], case["nq"]
